@@ -31,4 +31,82 @@ fn v_token_ok(t: [u8; 4]) -> bool {
     t != [0xff; 4]
 }
 
+// ---- state construction for the feed-level step harnesses (feed_step in the shared template) ----
+// state kinds: 0 Unconnected, 1 Connecting, 2 Pending, 3 Online, 4 Disconnected, 5 Token (connector
+// waiting for the acceptor's token), 6 PendingConnect (acceptor that has answered a token request)
+
+fn v_state(kind: u8) -> Connection {
+    let own = Token(kani::any());
+    let their = Token(kani::any());
+    // representation invariant: own tokens come from Token::random (never the reserved value, see
+    // c03_token_random), peer tokens from packets the reader accepted (it rejects the reserved value
+    // as response token, see c06_reread07)
+    kani::assume(own != TOKEN_NONE && their != TOKEN_NONE);
+    let state = match kind {
+        0 => State::Unconnected,
+        1 => State::Connecting(ConnectingState::new(own, their)),
+        2 => State::Pending(PendingState::new(own, their)),
+        3 => {
+            let mut o = OnlineState::new(own, their);
+            o.ack = Sequence::from_u16(kani::any::<u16>() % 1024);
+            o.sequence = Sequence::from_u16(kani::any::<u16>() % 1024);
+            State::Online(o)
+        }
+        5 => State::Token(TokenState::new(own)),
+        6 => State::PendingConnect(PendingConnectState::new(own)),
+        _ => State::Disconnected,
+    };
+    Connection { state: state, send: Timeout::inactive(), builder: PacketBuilder::new() }
+}
+
+fn v_state_kind(c: &Connection) -> u8 {
+    match c.state {
+        State::Unconnected => 0,
+        State::Connecting(_) => 1,
+        State::Pending(_) => 2,
+        State::Online(_) => 3,
+        State::Disconnected => 4,
+        State::Token(_) => 5,
+        State::PendingConnect(_) => 6,
+    }
+}
+
+fn v_tokens(c: &Connection) -> ([u8; 4], [u8; 4]) {
+    (c.state.own_token().unwrap_or(TOKEN_NONE).0, c.state.their_token().unwrap_or(TOKEN_NONE).0)
+}
+
+/// the token a datagram must carry not to be inert, if the state has fixed one. The one documented
+/// exception: an acceptor still waiting for the connect (PendingConnect) answers the protocol's
+/// unauthenticated token request (packet kind 4 carrying TOKEN_NONE).
+fn v_required_token(state_kind: u8, tokens: ([u8; 4], [u8; 4]), pkt_kind: u8, carried: [u8; 4]) -> Option<[u8; 4]> {
+    match state_kind {
+        1 | 2 | 3 | 5 => Some(tokens.0),
+        6 => {
+            if pkt_kind == 4 && carried == TOKEN_NONE.0 {
+                Some(TOKEN_NONE.0)
+            } else {
+                Some(tokens.0)
+            }
+        }
+        _ => None,
+    }
+}
+
+fn v_ready_kind() -> u8 {
+    5 // Accept
+}
+
+fn v_timer_state(kind: u8) -> bool {
+    kind == 1 || kind == 2 || kind == 3 || kind == 5
+}
+
+fn v_edge(before: u8, pkt: u8, after: u8) -> bool {
+    (before == 0 && pkt == 4 && after == 6)      // token request: Unconnected -> PendingConnect
+        || (before == 5 && pkt == 4 && after == 1) // token answer: Token -> Connecting
+        || (before == 6 && pkt == 3 && after == 2) // Connect: PendingConnect -> Pending
+        || (before == 1 && pkt == 5 && after == 3) // Accept: Connecting -> Online
+        || (before == 2 && pkt == 2 && after == 3) // first chunk packet: Pending -> Online
+        || (pkt == 1 && after == 4)                // Close
+}
+
 include!(concat!(env!("LIBTW2_VERIF_HARNESS"), "/gen_net_conn07.rs"));
